@@ -12,7 +12,7 @@ CASE_TYPE = "C13_case"
 HARNESS = "c13"
 KNOWN = {1: "C13-u16-param-length", 2: "C13-length-limited-max"}
 RULE = ("cases are (a) announced values of the four discovery types, encoded and fed to the real from_bytes, "
-        "(a') the same values as a big-endian vendor encodes them (PL_CDR_BE), (b) structure-aware mutations of such encodings (unknown/vendor pids inserted, truncated or odd length "
+        "(a') the same values as a big-endian vendor encodes them (PL_CDR_BE), (a'') announcements with look-alike unknown parameters inserted (ids 0x8000|pid, 0x4000|pid, 0xC000|pid, pid^1, pid+0x100 for every pid a reader looks up, carrying plausible values of different content; before, after, or instead of the genuine parameter; LE and BE) whose decoded value must equal the announced one, (b) structure-aware mutations of such encodings (unknown/vendor pids inserted, truncated or odd length "
         "fields, duplicated parameters, wrong enum/bool bytes, big-endian headers, cut tails), (c) calls of the real "
         "per-policy XCDR1 encoders on boundary values and (d) end-to-end SPDP announcements read back from the "
         "participant writer's history cache; distinct = distinct input line; non-trivial = the real decoder returned "
@@ -547,6 +547,92 @@ def mutate(r, kind, v):
     return "plain", assemble(ps)
 
 
+# ------------------------------------------------------------------ unknown parameters that resemble known ones
+# the pids each from_bytes looks up
+READ_PIDS = {
+    "t": [P[k] for k in ("ENDPOINT_GUID", "TOPIC_NAME", "TYPE_NAME", "TYPE_INFO", "DURABILITY", "DEADLINE", "LATENCY", "LIVELINESS",
+                         "RELIABILITY", "TRANSPRIO", "LIFESPAN", "DESTORDER", "HISTORY", "RESLIMITS", "OWNERSHIP", "TOPIC_DATA", "DATAREP")],
+    "w": [P[k] for k in ("ENDPOINT_GUID", "PARTICIPANT_GUID", "TOPIC_NAME", "TYPE_NAME", "TYPE_INFO", "DURABILITY", "DEADLINE", "LATENCY",
+                         "LIVELINESS", "RELIABILITY", "LIFESPAN", "USER_DATA", "OWNERSHIP", "OWNSTR", "DESTORDER", "PRESENTATION",
+                         "PARTITION", "TOPIC_DATA", "GROUP_DATA", "DATAREP", "GROUP_ENTITYID", "UNICAST", "MULTICAST")],
+    "r": [P[k] for k in ("ENDPOINT_GUID", "PARTICIPANT_GUID", "TOPIC_NAME", "TYPE_NAME", "TYPE_INFO", "DURABILITY", "DEADLINE", "LATENCY",
+                         "LIVELINESS", "RELIABILITY", "OWNERSHIP", "DESTORDER", "USER_DATA", "TBF", "PRESENTATION", "PARTITION",
+                         "TOPIC_DATA", "GROUP_DATA", "DATAREP", "TCE", "GROUP_ENTITYID", "UNICAST", "MULTICAST", "EXPECTS_INLINE")],
+    "p": [P[k] for k in ("PARTICIPANT_GUID", "USER_DATA", "DOMAIN_ID", "DOMAIN_TAG", "PROTO", "VENDOR", "EXPECTS_INLINE", "META_UNICAST",
+                         "META_MULTICAST", "DEF_UNICAST", "DEF_MULTICAST", "ENDPOINT_SET", "MLC", "ENDPOINT_QOS", "LEASE")],
+}
+FAMILIES = [lambda p: 0x8000 | p, lambda p: 0x4000 | p, lambda p: 0xC000 | p, lambda p: p ^ 1, lambda p: (p + 0x100) & 0xffff]
+FAMILY_NAMES = ["vendor8000", "mustunderstand4000", "c000", "xor1", "plus100"]
+
+
+def lookalikes(kind, pid, fams):
+    """ids that resemble pid but are read by no row of this kind (and are not the sentinel)"""
+    out = []
+    for f in fams:
+        i = FAMILIES[f](pid)
+        if i != 1 and i not in READ_PIDS[kind] and i not in out:
+            out.append(i)
+    return out
+
+
+def in_endian(be, f):
+    ENDIAN[0] = "big" if be else "little"
+    try:
+        return f()
+    finally:
+        ENDIAN[0] = "little"
+
+
+def inject(kind, v, alts, be, mode, fams):
+    """the announcement of v (PL_CDR_BE if be) with look-alike parameters carrying plausible values of
+    DIFFERENT content: mode 'before' / 'after' each genuine parameter, 'absent' for the read pids that
+    v does not announce (elided defaults, empty locator lists)"""
+    def f():
+        ps = params_of(kind, v)
+        alt_ps = [q for a in alts for q in params_of(kind, a)]
+
+        def bogus(pid, genuine):
+            vals = [val for (p2, val) in alt_ps if p2 == pid and val != genuine]
+            if pid == P["TYPE_INFO"]:
+                vals = [[0] * 8]
+            if not vals:
+                return []
+            return [(i, vals[(i + k) % len(vals)]) for k, i in enumerate(lookalikes(kind, pid, fams))]
+        out = []
+        if mode in ("before", "after"):
+            for (pid, val) in ps:
+                b = bogus(pid, val)
+                out += (b + [(pid, val)]) if mode == "before" else ([(pid, val)] + b)
+        else:
+            present = {pid for pid, _ in ps}
+            missing = [pid for pid in READ_PIDS[kind] if pid not in present]
+            front = [q for pid in missing[0::2] for q in bogus(pid, None)]
+            back = [q for pid in missing[1::2] for q in bogus(pid, None)]
+            out = front + ps + back
+        hdr = [0, 2, 0, 0] if be else HEADER
+        sen = [0, 1, 0, 0] if be else SENTINEL
+        return assemble(out, header=hdr, sentinel=False) + sen
+    return in_endian(be, f)
+
+
+def unknown_cases(r, systematic):
+    """systematic: every kind x family x mode x endianness, each case touching every pid the reader looks up"""
+    cases = []
+    for kind in "twrp":
+        alts = [gen_value(r, kind) for _ in range(40)]
+        cands = [gen_value(r, kind) for _ in range(30)]
+        rich = max(cands, key=lambda c: len(params_of(kind, c)))
+        poor = min(cands, key=lambda c: len(params_of(kind, c)))
+        combos = [(f, m, be) for f in range(len(FAMILIES)) for m in ("before", "after", "absent") for be in (False, True)]
+        if not systematic:
+            combos = [r.choice(combos)]
+        for (f, m, be) in combos:
+            v = poor if m == "absent" else (rich if systematic else gen_value(r, kind))
+            fams = [f] if systematic or r.random() < 0.6 else list(range(len(FAMILIES)))
+            cases.append(("rtunk", kind, v, inject(kind, v, alts, be, m, fams)))
+    return cases
+
+
 # ------------------------------------------------------------------ cases
 # ("dec", kind, bytes, tag) | ("rt", kind, value, bytes) | ("enc", name, args) | ("ann", pvalue)
 def hx(b):
@@ -596,7 +682,7 @@ def locs_tok(ls):
 def case_line(c):
     if c[0] == "dec":
         return "dec %s %s" % (c[1], hx(c[2]))
-    if c[0] in ("rt", "rtbe"):
+    if c[0] in ("rt", "rtbe", "rtunk"):
         return "dec %s %s %s %s" % (c[1], hx(c[3]), c[0], json.dumps(c[2], separators=(",", ":")))
     if c[0] == "enc":
         return enc_line(c[1], c[2])
@@ -614,7 +700,7 @@ def unhx(s):
 def parse_line(line):
     t = line.split()
     if t[0] == "dec":
-        if len(t) > 3 and t[3] in ("rt", "rtbe"):
+        if len(t) > 3 and t[3] in ("rt", "rtbe", "rtunk"):
             return (t[3], t[1], json.loads(t[4]), unhx(t[2]))
         return ("dec", t[1], unhx(t[2]), "replay")
     return None   # enc / ann cases are regenerated, not replayed from text
@@ -1008,10 +1094,10 @@ def case_term(c, out):
     if c[0] == "dec":
         o = parse_dec_out(c[1], out, None, ("d", c[2]))
         return None if o is None else "(let d := %s in mkC13 (Dec %s d) (ODec %s))" % (cbytes(c[2]), "K" + c[1].upper(), o)
-    if c[0] in ("rt", "rtbe"):
+    if c[0] in ("rt", "rtbe", "rtunk"):
         o = parse_dec_out(c[1], out, ("v", c[2]), ("d", c[3]))
         return None if o is None else "(let v := %s in let d := %s in mkC13 (%s v d) (ODec %s))" % (
-            cvalue(c[1], c[2]), cbytes(c[3]), "Rt" if c[0] == "rt" else "RtBe", o)
+            cvalue(c[1], c[2]), cbytes(c[3]), "Rt" if c[0] == "rt" else "RtExt", o)
     if c[0] == "enc":
         if not out.startswith("OK "):
             return None
@@ -1121,12 +1207,14 @@ def has_ti_blob(b):
 
 
 def gen(r, tier):
-    n = {"quick": 900, "search": 3000, "thorough": 8000}[tier]
+    n = {"quick": 800, "search": 3000, "thorough": 8000}[tier]
     cases = []
     cases += big_cases(r, tier)
     cases += enc_cases(r, n // 10)
     for _ in range(n // 40):
         cases.append(("ann", ann_value(r, roctets(r))))
+    for _ in range(n // 30):
+        cases += unknown_cases(r, False)
     while len(cases) < n:
         kind = r.choice("twrp")
         k = r.random()
@@ -1180,6 +1268,10 @@ def corpus():
         ps = params_of(k, v)
         ps.insert(3, (P["TYPE_INFO"], []))
         cs.append(("dec", k, assemble(ps), "ti"))
+    # unknown / vendor-specific / must-understand-flagged look-alikes of EVERY pid a reader looks up
+    # (0x8000|pid, 0x4000|pid, 0xC000|pid, pid^1, pid+0x100), before / after / instead of the genuine
+    # parameter, little and big endian: decoded must equal announced
+    cs += unknown_cases(r, True)
     # the unit-test vectors of the source files
     cs.append(("dec", "t", unhx("000300005a0010000100000002000000030000000400000005000800030000006162000007000800030000006364000001000000"), "unit"))
     return cs
